@@ -669,6 +669,7 @@ func addHostile(r *simkit.RNG, p *Pkg, i, np int, rootRun bool) {
 		{Path: "hd/h-upup", Kind: "link", Target: "../.."},
 		{Path: "h-abs-root", Kind: "link", Target: "/"},
 		{Path: "hd/h-leak", Kind: "link", Target: "h-top/../../victim"},
+		{Path: ".terraformignore", Kind: "fifo", Mode: 0o644},
 	}
 	n := r.Range(1, 3)
 	if r.Chance(1, 3) {
@@ -677,6 +678,9 @@ func addHostile(r *simkit.RNG, p *Pkg, i, np int, rootRun bool) {
 	for j := 0; j < n; j++ {
 		c := simkit.Pick(r, choices)
 		if hasPath(p.Files, c.Path) {
+			continue
+		}
+		if c.Path == ".terraformignore" && p.Rules != nil {
 			continue
 		}
 		if c.Kind == "dev" && !rootRun {
